@@ -1333,6 +1333,11 @@ let pred_eng line spec ad flags steps impl =
     (* a whole policy text through an adapter: the loaded stores are exactly the rows of the text, also after a reload *)
     (match text_rows_of_adapter ad, impl_results impl with
      | Some rows, Some [p1; g1; ld; p2; g2] -> b01 (dumps_are_rows ~spec p1 g1 rows && ld = "1" && p2 = p1 && g2 = g1)
+     (* ... and after the file adapter has RENDERED the policy (save_policy): the rendered file read by a fresh adapter (?rv)
+        and a reload give the same rows again *)
+     | Some rows, Some [p1; g1; ld; p2; g2; sv; rv; ld2; p3; g3] ->
+       b01 (dumps_are_rows ~spec p1 g1 rows && ld = "1" && p2 = p1 && g2 = g1
+            && sv = "1" && rv = cat_dumps p1 g1 && ld2 = "1" && p3 = p1 && g3 = g1)
      | Some _, _ -> "0"
      | None, _ -> "-")
   | "C14" -> b01 (try pred_c14 line spec ad flags steps impl with Failure _ -> false)
